@@ -74,6 +74,9 @@ func procState(pr *ProcResult) string {
 		if pr.Outcome.Deadlock != "" {
 			return "deadlock"
 		}
+		if pr.Outcome.Stalled != "" {
+			return "watchdog"
+		}
 		if pr.Outcome.Done {
 			return "ok"
 		}
@@ -272,7 +275,8 @@ func judgeC10(c *Check, p *plan.Plan, pr *ProcResult) *Judged {
 			j.v(p, "C10", "snapshot", oo.Task, oo.Op, "snapshot:"+op.Op+":"+snapClass(s), "after "+describeOp(p, oo.Task, oo.Op)+": "+s)
 			break
 		}
-		if op.Op == "URL" && oo.Rec != nil && oo.Rec.Err == "" && !oo.Rec.NilResult {
+		// (with redirects, "the fetched address" could be read as the final one: not judged)
+		if op.Op == "URL" && op.Net != nil && op.Net.Redirects == 0 && !op.Net.RedirLoop && oo.Rec != nil && oo.Rec.Err == "" && !oo.Rec.NilResult {
 			want := op.URL
 			if u, err := nurl.ParseRequestURI(op.URL); err == nil {
 				want = u.String()
